@@ -332,6 +332,7 @@ class Host:
         if "LeakSanitizer: detected memory leaks" in ex.stderr:
             ex.leak = True
         ex.ubsan = re.findall(r"runtime error: ([^\n]*)", ex.stderr)
+        ex.ubsan_where = re.findall(r"([^\s:/]+\.c:\d+):\d+: runtime error: shift exponent", ex.stderr)
         self.hash.update(b"rc=%d td=%d" % (rc, ex.teardown))
         self.exit = ex
         self.dead = True
